@@ -5,7 +5,7 @@ import ast, json, os, shutil, subprocess, sys
 sys.path.insert(0, os.path.dirname(os.path.abspath(__file__)))
 import mutate
 VERIF = os.path.dirname(os.path.dirname(os.path.abspath(__file__)))
-SURVEYS = [('results.jsonl', '255d99f'), ('results2.jsonl', 'ca8c96a')]      # (file, commit the survey ran on)
+SURVEYS = [('results.jsonl', '255d99f'), ('results2.jsonl', 'ca8c96a'), ('results3.jsonl', '37b2fae')]      # (file, commit the survey ran on)
 rs = []
 for fn_, base in SURVEYS:
     pth = os.path.join(VERIF, 'mutation', fn_)
